@@ -73,6 +73,9 @@ func pmRun(c pmCase, prop string) (fail *vlib.Failure, rs pmRunStats) {
 			}
 		}
 		need := (uint64(nAvail)*(256+8)+uint64(len(avail))/8+4095)/4096 + 1
+		// the early allocator may pass over a frame at each region / kernel
+		// boundary (documented quirk, see DESIGN.md C02): allow for that
+		need += uint64(nAvail) + 2
 		usable := uint64(0)
 		for _, f := range avail {
 			if f < kf0 || f > kf1 {
